@@ -7,6 +7,7 @@ import (
 	"fmt"
 	"math/rand"
 	"strings"
+	"sync/atomic"
 	"time"
 
 	"github.com/samber/ro"
@@ -80,6 +81,24 @@ func plan(tier string, seed int64) []driver.Case {
 						P: map[string]string{"kind": "ho", "entry": name, "cut": cut, "head": head, "ocomplete": oc}})
 				}
 			}
+		}
+	}
+	// the downstream side terminates while the operator is still inside the Subscribe call of its
+	// last source (that source's subscribe function is held): the subscription it gets back belongs to
+	// a stream that is already over and must be released at once
+	for _, e := range catalog.All() {
+		if e.NSrc < 2 || (e.Op == nil && e.IntObs == nil) || e.Flags.Has(catalog.Blocks) || e.Flags.Has(catalog.Creation) {
+			continue
+		}
+		for _, cut := range []string{"take1", "first", "tap-panic"} {
+			cases = append(cases, driver.Case{ID: fmt.Sprintf("held/%s/%s", e.Name, cut), P: map[string]string{"kind": "held", "entry": e.Name, "cut": cut}})
+		}
+	}
+	for _, name := range hoNames {
+		if hoNeedsOuterComplete[name] {
+			cases = append(cases, driver.Case{ID: fmt.Sprintf("held/ho/%s/unsub", name), P: map[string]string{"kind": "held", "ho": name, "cut": "unsub"}})
+		} else {
+			cases = append(cases, driver.Case{ID: fmt.Sprintf("held/ho/%s/take1", name), P: map[string]string{"kind": "held", "ho": name, "cut": "take1"}})
 		}
 	}
 	ch := catalog.Chainable()
@@ -200,6 +219,146 @@ func hoEntry(name string) *catalog.Entry {
 		panic("c14: unknown higher-order operator " + name)
 	}
 	return e
+}
+
+// runHeld: see the plan. For higher-order operators the held subscribe function is the one of an
+// inner source; for CombineLatestAll / ZipAll (which subscribe their inner sources when the outer one
+// completes and emit only when all have emitted) the stream is ended by Unsubscribe instead.
+func runHeld(c driver.Case) driver.Result {
+	var e *catalog.Entry
+	if h := c.Get("ho"); h != "" {
+		e = hoEntry(h)
+	} else {
+		e = catalog.Get(c.Get("entry"))
+	}
+	cut := c.Get("cut")
+	res := driver.Result{Verdict: driver.Held, Sig: "held/" + e.Name + "/" + cut}
+	b := &catalog.B{}
+	var srcs []*src.Source
+	hold := make(chan struct{})
+	inside := make(chan int, 8)
+	var entered atomic.Int64
+	isHO := c.Get("ho") != ""
+	for i := 0; i < e.NSrc; i++ {
+		i := i
+		s := src.New(fmt.Sprintf("s%d", i))
+		s.OnSubscribe = func(int, int64, context.Context) {
+			n := entered.Add(1)
+			last := int(n) == e.NSrc
+			if isHO {
+				last = i > 0 && n == 2 // the first inner source that gets subscribed
+			}
+			if last {
+				inside <- i
+				<-hold
+			}
+		}
+		srcs = append(srcs, s)
+		b.Srcs = append(b.Srcs, s.Observable())
+	}
+	var o ro.Observable[int]
+	if e.Op != nil {
+		o = e.Op(b)(b.S(0))
+	} else {
+		o = e.IntObs(b)
+	}
+	signal := src.New("signal")
+	d, _ := downstream(cut, signal.Observable())
+	r := rec.New(e.Name)
+	var sub ro.Subscription
+	subDone := make(chan struct{})
+	go func() {
+		defer close(subDone)
+		defer func() { recover() }()
+		sub = catalog.P(d(o)).Subscribe(context.Background(), r, false)
+	}()
+	what := fmt.Sprintf("%s followed by %s; the downstream side ends while the subscribe function of one source is still running", e.Name, cut)
+	released := false
+	release := func() {
+		if !released {
+			released = true
+			close(hold)
+		}
+	}
+	defer release()
+	send := func(s *src.Source, n src.Notif) {
+		go func() { defer func() { recover() }(); s.Send(n) }()
+		quiesce.Settle(300 * time.Millisecond)
+	}
+	heldIdx := -1
+	if isHO {
+		// the outer source picks inner source 1, (for the …All operators) then completes
+		select {
+		case <-subDone:
+		case <-time.After(3 * time.Second):
+		}
+		send(srcs[0], src.Notif{K: rec.Next, V: 0})
+		if hoNeedsOuterComplete[c.Get("ho")] {
+			send(srcs[0], src.Notif{K: rec.Next, V: 1})
+			send(srcs[0], src.Notif{K: rec.Complete})
+		}
+	}
+	select {
+	case heldIdx = <-inside:
+	case <-time.After(3 * time.Second):
+		res.Extra = map[string]int64{"no_subscribe_function_held": 1}
+		cleanup(sub, srcs)
+		return res
+	}
+	// end the stream
+	if cut == "unsub" {
+		select {
+		case <-subDone:
+			func() { defer func() { recover() }(); sub.Unsubscribe() }()
+		case <-time.After(time.Second):
+		}
+	} else {
+		for i, s := range srcs {
+			if i != heldIdx && s.IsSubscribed() && s.Live.Load() > 0 && !(isHO && i == 0) {
+				send(s, src.Notif{K: rec.Next, V: 1})
+			}
+		}
+		if isHO {
+			// no other inner source is subscribed yet: a second outer value brings one in
+			send(srcs[0], src.Notif{K: rec.Next, V: 1})
+			for i, s := range srcs {
+				if i > 0 && i != heldIdx && s.IsSubscribed() && s.Live.Load() > 0 {
+					send(s, src.Notif{K: rec.Next, V: 1})
+				}
+			}
+		}
+	}
+	over := r.Terminal() != rec.Next || (cut == "unsub" && sub != nil && sub.IsClosed())
+	release()
+	st, dump, _ := quiesce.Call(func() { <-subDone }, 10*time.Second)
+	if st == quiesce.Hung {
+		res.Verdict, res.Key, res.Dirty, res.Witness = driver.Violated, "C14/"+e.Family+"/subscribe-never-returns/"+quiesce.BlockedSite(dump), true, dump
+		res.Msg = what + ": Subscribe never returns; all goroutines blocked"
+		return res
+	}
+	_, settled := quiesce.Settle(10 * time.Second)
+	res.Events = int64(r.Len()) + entered.Load()
+	res.Sample = map[string]any{"pipeline": e.Name, "cut": cut, "held_source": heldIdx, "downstream_over_while_held": over, "trace": r.TraceString(), "sources": summarize(srcs)}
+	if !over {
+		// the operator gave the downstream side nothing to terminate on (it waits for every source): nothing to judge
+		res.Extra = map[string]int64{"downstream_not_over_while_held": 1}
+		cleanup(sub, srcs)
+		return res
+	}
+	res.Nontrivial = true
+	for _, s := range srcs {
+		if e.Flags.Has(catalog.KeepsSource) {
+			break
+		}
+		if s.IsSubscribed() && s.Live.Load() > 0 && settled {
+			res.Verdict, res.Key, res.Dirty = driver.Violated, "C14/"+e.Family+"/upstream-not-released", true
+			res.Msg = fmt.Sprintf("%s (trace [%s], held source s%d): source %s is still subscribed after its subscribe function returned into a stream that was already over: %s", what, r.TraceString(), heldIdx, s.Name, s.Summary())
+			cleanup(sub, srcs)
+			return res
+		}
+	}
+	cleanup(sub, srcs)
+	return res
 }
 
 func runOp(c driver.Case) driver.Result {
@@ -596,6 +755,9 @@ func runCase(c driver.Case) driver.Result {
 	rec.ResetHooks()
 	if c.Get("kind") == "creation" {
 		return runCreation(c)
+	}
+	if c.Get("kind") == "held" {
+		return runHeld(c)
 	}
 	return runOp(c)
 }
